@@ -20,6 +20,7 @@ RULE = (
     "stay attached to their own base cell, in order; survival on an edge not asserted). Non-trivial: an edge inside a "
     "double-width character, or a run boundary adjacent to a wide/zero-width character."
     ' Hypothesis strings go up to 70 runs / 70 characters per run and are also built by repeated concatenation with every intermediate width observed, by repetition of run objects, by slicing and by attribute removal from observed parents.'
+    ' Marks stacked on a character lying wholly inside the range, with the range going on past it, must all be present; an integer column index must equal the one-column slice.'
 )
 ASSUMPTIONS = [
     "character widths: wcwidth package restricted to an alphabet on which it agrees with cwcwidth (checked at start)",
